@@ -1227,6 +1227,116 @@ func c01R8(c *Ctx) {
 		})
 	}
 	c.Floor("C01.R8", "reply channels created in pkg/eni", 3, n)
+	c01R9(c)
+}
+
+// R9: a fresh entry never replaces one a pod still holds. The cloud can hand out
+// an address again that was removed behind the daemon's back while the entry —
+// invalid, but still owned — is in the set; PutValid / PutDeleting store a fresh
+// entry only where no owned entry exists under that address.
+func c01R9(c *Ctx) {
+	p := c.P
+	c.Rule("C01.R9", "Set.PutValid stores a fresh (unowned) entry only where the set holds no entry in use under that address: the store is dominated by ¬(present ∧ InUse) of the looked-up entry — an address re-issued by the cloud while a pod still holds it keeps its owner")
+	fn := p.Func(eniPkg, "Set.PutValid")
+	if fn == nil {
+		c.Unres("C01.R9", "Set.PutValid", "not found")
+		return
+	}
+	info := fn.Info()
+	recv := recvObj(fn)
+	n := 0
+	ast.Inspect(fn.Decl.Body, func(nd ast.Node) bool {
+		as, ok := nd.(*ast.AssignStmt)
+		if !ok || len(as.Lhs) != 1 || len(as.Rhs) != 1 {
+			return true
+		}
+		ix, ok := ast.Unparen(as.Lhs[0]).(*ast.IndexExpr)
+		if !ok || identObj(info, ix.X) != recv {
+			return true
+		}
+		n++
+		// the lookup of the same key: old, ok := s[k]
+		var oldN, okN string
+		ast.Inspect(fn.Decl.Body, func(k ast.Node) bool {
+			a2, ok := k.(*ast.AssignStmt)
+			if !ok || len(a2.Lhs) != 2 || len(a2.Rhs) != 1 {
+				return true
+			}
+			if i2, ok := ast.Unparen(a2.Rhs[0]).(*ast.IndexExpr); ok && identObj(info, i2.X) == recv && exprString(i2.Index) == exprString(ix.Index) {
+				oldN, okN = exprString(a2.Lhs[0]), exprString(a2.Lhs[1])
+			}
+			return true
+		})
+		if oldN == "" || oldN == "_" || okN == "_" {
+			c.Bad("C01.R9", "PutValid: the stored-over entry is looked up first", p.Pos(as), fn.Key(), "old, ok := s[addr] before s[addr] = fresh entry", "the store replaces whatever entry exists, owned or not")
+			return true
+		}
+		// every path to the store left the test "present ∧ in use" on a false edge
+		var oldObj, okObj types.Object
+		ast.Inspect(fn.Decl.Body, func(k ast.Node) bool {
+			if id, ok := k.(*ast.Ident); ok && info.Defs[id] != nil {
+				if id.Name == oldN {
+					oldObj = info.Defs[id]
+				}
+				if id.Name == okN {
+					okObj = info.Defs[id]
+				}
+			}
+			return true
+		})
+		q := NewPathQuery(p, fn, nil)
+		// "the entry is absent or idle" follows from cond being false (resp. true)
+		var whenFalse, whenTrue func(e ast.Expr) bool
+		whenFalse = func(e ast.Expr) bool {
+			e = ast.Unparen(e)
+			switch t := e.(type) {
+			case *ast.Ident:
+				return okObj != nil && info.ObjectOf(t) == okObj
+			case *ast.CallExpr:
+				sel, ok := ast.Unparen(t.Fun).(*ast.SelectorExpr)
+				return ok && sel.Sel.Name == "InUse" && oldObj != nil && identObj(info, sel.X) == oldObj
+			case *ast.BinaryExpr:
+				if t.Op == token.LAND {
+					return whenFalse(t.X) && whenFalse(t.Y)
+				}
+				if t.Op == token.LOR {
+					return whenFalse(t.X) || whenFalse(t.Y)
+				}
+			case *ast.UnaryExpr:
+				if t.Op == token.NOT {
+					return whenTrue(t.X)
+				}
+			}
+			return false
+		}
+		whenTrue = func(e ast.Expr) bool {
+			e = ast.Unparen(e)
+			switch t := e.(type) {
+			case *ast.BinaryExpr:
+				if t.Op == token.LAND {
+					return whenTrue(t.X) || whenTrue(t.Y)
+				}
+				if t.Op == token.LOR {
+					return whenTrue(t.X) && whenTrue(t.Y)
+				}
+			case *ast.UnaryExpr:
+				if t.Op == token.NOT {
+					return whenFalse(t.X)
+				}
+			}
+			return false
+		}
+		q.Prune = func(cond ast.Expr, takeTrue bool) bool {
+			if takeTrue {
+				return whenTrue(cond)
+			}
+			return whenFalse(cond)
+		}
+		w := q.Escapes(nil, isExactly(as), nil, nil)
+		c.Check(w == nil, "C01.R9", "PutValid: no entry in use is replaced", p.Pos(as), fn.Key(), "every path to the store passes ¬present or ¬InUse() of the looked-up entry", "path: "+p.describePath(w))
+		return true
+	})
+	c.Floor("C01.R9", "entry stores in Set.PutValid", 1, n)
 }
 
 func asExpr(n ast.Node) ast.Expr {
